@@ -2,6 +2,9 @@ pub mod c01;
 pub mod c03;
 pub mod c04;
 pub mod c05;
+pub mod c08;
+pub mod c09;
+pub mod c10;
 pub mod c11;
 pub mod c12;
 pub mod front;
@@ -53,6 +56,9 @@ pub fn run(id: &str, tier: Tier, seed: u64) -> Option<Report> {
         "C03" => c03::run(tier, seed),
         "C04" => c04::run(tier, seed),
         "C05" => c05::run(tier, seed),
+        "C08" => c08::run(tier, seed),
+        "C09" => c09::run(tier, seed),
+        "C10" => c10::run(tier, seed),
         "C11" => c11::run(tier, seed),
         "C12" => c12::run(tier, seed),
         "C13" => c13::run(tier, seed),
@@ -70,6 +76,9 @@ pub fn replay(id: &str, phase: &str, tape: &[u16], seed: u64) -> Option<Report> 
         "C03" => c03::replay(phase, tape, seed),
         "C04" => c04::replay(phase, tape, seed),
         "C05" => c05::replay(phase, tape, seed),
+        "C08" => c08::replay(phase, tape, seed),
+        "C09" => c09::replay(phase, tape, seed),
+        "C10" => c10::replay(phase, tape, seed),
         "C11" => c11::replay(phase, tape, seed),
         "C12" => c12::replay(phase, tape, seed),
         "C13" => c13::replay(phase, tape, seed),
@@ -79,4 +88,24 @@ pub fn replay(id: &str, phase: &str, tape: &[u16], seed: u64) -> Option<Report> 
         "C20" => c20::replay(phase, tape, seed),
         _ => return None,
     })
+}
+
+// ---------------------------------------------------------------------------------------------
+// shared: run one generated case through the direct pipeline and decode the result
+
+pub struct Evaluated {
+    pub expected: Result<crate::model::ExpectedTx, crate::model::EvalErr>,
+    pub outcome: Result<(tx3_tir::compile::CompiledTx, crate::dec::DTx), crate::pipeline::StageErr>,
+    pub source: String,
+}
+
+pub fn evaluate(case: &Case, cfg: &crate::pipeline::Cfg) -> Evaluated {
+    let source = gast::layout(&gast::tokens(&case.prog, false), &mut Tape::new(&[]));
+    let env = case.env(cfg.slot, cfg.time);
+    let expected = crate::model::denote(&env);
+    let outcome = crate::pipeline::run_direct(&source, &env, cfg).and_then(|c| match crate::dec::conway(&c.payload) {
+        Ok(d) => Ok((c, d)),
+        Err(e) => Err(crate::pipeline::StageErr::Err { stage: "decode", msg: format!("{} payload={}", e.0, hex::encode(&c.payload)) }),
+    });
+    Evaluated { expected, outcome, source }
 }
